@@ -9,11 +9,13 @@
   * `file_bytes_fn`            : the closed file is a function of (open parameters, concatenated encoded bytes,
                                  PEAK state) — item / frame call variants and interleaved SFC_UPDATE_HEADER_NOW included.
   * `file_bytes_partition_partial` : for every format without a PEAK chunk the file depends only on the concatenation.
-  * `file_bytes_partition_full_fails` : for WAV double the PEAK *position* depends on the partition (defect
-                                 candidate, confirmed on the real library); the audio data never does
-                                 (`file_data_partition`).
+  * `file_bytes_partition_finite` : since the repairs of KF-C18-DOUBLE-NARROW / KF-C18-STAGING-MISALIGN the full statement
+                                 holds for PEAK-carrying files too, for every history of finite samples (the old
+                                 rule's dependence on the split: `Sf.C18.peak_partition_old_rule_fails`); the audio
+                                 data never depended on it (`file_data_partition`).
 -/
 import SfProofs.CodecFile
+import SfProofs.PeakFile
 namespace Sf.C07
 open Sf
 
@@ -165,39 +167,55 @@ theorem file_bytes_partition_splits (fmt : Nat) (ch sr : Int) (h : H) (s : Store
 example : closeBytes 0x010003 1 8000 [.write .s32 true 1 [256], .updHeader 0, .write .s32 false 2 [512, -256], .write .s32 false 0 []]
     = closeBytes 0x010003 1 8000 [.write .s32 false 3 [256, 512, -256]] := by decide +kernel
 
-/-! ## PEAK: the full statement fails (defect candidate C07 / C18)
+/-! ## PEAK-carrying files (WAV float / double)
 
-`double64_peak_update` keeps its running maximum in a C `float` but compares it with the un-narrowed `double`
-samples.  Two samples a = 1 + 2⁻³⁰ and b = 1 + 2⁻³¹ (both narrow to 1.0f) in one call: after a, the running
-maximum is 1.0f < b, so the position moves to b.  In two calls the second call's maximum 1.0f is not greater than
-the stored 1.0, so the position stays at a.  The real library produces the same two files (harness script in the
-report). -/
+Before the repairs of KF-C18-DOUBLE-NARROW and KF-C18-STAGING-MISALIGN the PEAK *position* depended on the split
+(`Sf.C18.peak_partition_old_rule_fails`: a = 1 + 2⁻³⁰ then b = 1 + 2⁻³¹ in one call gave position 1, in two calls position 0;
+`Sf.C18.staging_misaligned_old_rule`).  With the running maximum kept in the sample's type and staging buffers of whole
+frames the PEAK state is a function of the samples (`Sf.Peak.run_partition`), so the full statement holds for every
+history of finite samples.  Non-finite samples (NaN / ±Inf, also a finite double that overflows a FLOAT file) are outside
+the quantifier of every property: the C comparisons with NaN are all false, which *is* partition dependent, and the model's
+order on such patterns is not the C one. -/
 
+/-- every sample handed over is finite in the file's sample type -/
+def FiniteOps (h : H) (ty : Ty) (ops : List WOp) : Prop :=
+  ∀ x ∈ ops.flatMap WOp.samples, (Peak.fileFmt h.enc).isFinite (Peak.convVal h.enc h.conv ty x) = true
+
+/-- **C07 at full strength, PEAK-carrying files included**: any list of well-formed calls of finite samples (items and
+    frames variants, any split, SFC_UPDATE_HEADER_NOW anywhere in between) closes to the same bytes as one call with the
+    concatenation. -/
+theorem file_bytes_partition_finite (fmt : Nat) (ch sr : Int) (h : H) (s : Store)
+    (ho : openHandle 0 {} .w fmt ch sr = .ok h s)
+    (ty : Ty) (ops : List WOp) (hok : ∀ op ∈ ops, op.ok h) (ht : ∀ op ∈ ops, op.hasTy ty) (hfin : FiniteOps h ty ops) :
+    closeBytes fmt ch sr ops = closeBytes fmt ch sr [oneCall ty ops] := by
+  have hok1 : ∀ op ∈ [oneCall ty ops], op.ok h := by
+    intro op hop; simp only [List.mem_singleton] at hop; subst hop; exact single_ok h ty ops hok
+  have ht1 : ∀ op ∈ [oneCall ty ops], op.hasTy ty := by simp [oneCall, WOp.hasTy]
+  have hs1 : [oneCall ty ops].flatMap WOp.samples = ops.flatMap WOp.samples := by
+    simp only [oneCall, List.flatMap_cons, List.flatMap_nil, List.append_nil, WOp.samples]
+    split
+    · rename_i h0; exact (List.eq_nil_of_length_eq_zero (by omega)).symm
+    · rfl
+  apply file_bytes_partition_peak fmt ch sr h s ho ops _ hok hok1
+  · rw [ops_bytes_eq _ _ ty ops ht, ops_bytes_eq _ _ ty [oneCall ty ops] ht1, hs1]
+  · obtain ⟨inv, _⟩ := open_winv 0 {} rfl fmt ch sr h s ho
+    have hpk := (open_props 0 {} fmt ch sr h s ho).2.2.2.2.2.2.2.2.2
+    rw [hpk]
+    split
+    · rename_i hx
+      rw [Peak.peakRun_eq_run, Peak.peakRun_eq_run]
+      apply Peak.run_partition h.enc hx.2 h.conv h.ch inv.ch_pos
+      · rw [Peak.toCalls_fileVals _ _ ty ops ht, Peak.toCalls_fileVals _ _ ty _ ht1, hs1]
+      · exact Peak.toCalls_wellFormed h inv.ch_pos ty ops hok ht hfin
+      · exact Peak.toCalls_wellFormed h inv.ch_pos ty _ hok1 ht1 (by rw [hs1]; exact hfin)
+    · rw [peakRun_none, peakRun_none]
+
+/-- the witness that used to separate the two splits: now the same file -/
 def wa : Int := 0x3FF0000000400000   -- 1 + 2^-30
 def wb : Int := 0x3FF0000000200000   -- 1 + 2^-31
 
-theorem peak_position_depends_on_partition :
-    closeBytes 0x010007 1 8000 [.write .f64 false 2 [wa, wb]] ≠
+example : closeBytes 0x010007 1 8000 [.write .f64 false 2 [wa, wb]] =
     closeBytes 0x010007 1 8000 [.write .f64 false 1 [wa], .write .f64 false 1 [wb]] := by decide +kernel
-
-theorem file_bytes_partition_full_fails : ¬ file_bytes_partition_full := by
-  intro hf
-  apply peak_position_depends_on_partition
-  obtain ⟨h, s, ho⟩ := OpenRes.ok_of_isOk (openHandle 0 {} .w 0x010007 1 8000) (by decide +kernel)
-  have hch : h.ch = 1 := by
-    have := (open_props 0 {} _ _ _ h s ho).2.2.2.2.1; omega
-  have := hf 0x010007 1 8000 h s ho .f64 [.write .f64 false 1 [wa], .write .f64 false 1 [wb]]
-    (by
-      intro op hop
-      simp only [List.mem_cons, List.mem_nil_iff, or_false] at hop
-      rcases hop with rfl | rfl <;>
-        exact Or.inr ⟨by decide, fun _ => by rw [hch]; decide, by simp [callLen]⟩)
-    (by
-      intro op hop
-      simp only [List.mem_cons, List.mem_nil_iff, or_false] at hop
-      rcases hop with rfl | rfl <;> rfl)
-  rw [this]
-  rfl
 
 /-- … but the audio data and the file length never depend on the partition, PEAK or not:
     the closed file is  header ++ (concatenated encoded bytes) ++ trailer  with a header of fixed length -/
